@@ -164,9 +164,16 @@ inductive AppAnswer
 deriving DecidableEq, Repr, Inhabited
 
 structure AppReply where
-  /-- DeviceCommunicationControl: `smap.dccEnableDisable = …` before answering -/
+  /-- DeviceCommunicationControl ACCEPTED: `smap.dccEnableDisable = …` before answering
+      (`enable_communications` / `disable_communications`; a refused request changes nothing) -/
   dcc : Option Dcc := none
-  answer : AppAnswer
+  /-- … and, for a disable with a time duration, the microseconds until `enable_communications`
+      runs again (`_dcc_enable_task`); an accepted request without one cancels a pending task -/
+  dccFor : Option Nat := none
+  /-- what the helper hands to `self.response(...)` before it returns; `none`: it returns
+      without answering (a gateway-style application answers later from a task — `respond` —
+      or never) -/
+  answer : Option AppAnswer
 deriving Repr, Inhabited
 
 /-- the PDU the ASAP passes down (`set_context`: invoke ID and service choice of the request) -/
@@ -208,6 +215,9 @@ structure DevState (σ : Type) where
   nniTask : Bool := false
   /-- … and is scheduled (10 000 s after a broadcast What-Is-Network-Number) -/
   nniPending : Bool := false
+  /-- `DeviceCommunicationControlServices._dcc_enable_task`: instant (µs) at which communication
+      is enabled again -/
+  dccTimer : Option Nat := none
   app : σ
 
 /-! ## network layer -/
@@ -340,6 +350,29 @@ def applyDcc (s : Sap) : Option Dcc → Sap
   | none => s
   | some d => { s with dcc := d }
 
+/-- the answer (if the helper gives one before returning) re-enters the state machines -/
+def answerStep (cfg : Tsm.Cfg) (sap : Sap) (peer : Peer) (a : Apdu) : Option AppAnswer → Sap × List Out
+  | some ans => step cfg sap (.response peer (respApdu a ans))
+  | none => (sap, [])
+
+/-- the re-enable task after an indication: an accepted DeviceCommunicationControl replaces it -/
+def newDccTimer (now : Nat) (old : Option Nat) (r : AppReply) : Option Nat :=
+  match r.dcc with
+  | some _ => r.dccFor.map (now + ·)
+  | none => old
+
+/-- `enable_communications` run by its task -/
+def dccFire {σ} (s : DevState σ) : DevState σ :=
+  match s.dccTimer with
+  | some _ => { s with sap := { s.sap with dcc := .enable }, dccTimer := none }
+  | none => s
+
+/-- … if it is due by instant `t` -/
+def dccExpire {σ} (t : Nat) (s : DevState σ) : DevState σ :=
+  match s.dccTimer with
+  | some d => if d ≤ t then dccFire s else s
+  | none => s
+
 /-- the unconfirmed requests an application helper sends (`.unconfirmed` events) -/
 def sendUnconf (cfg : Tsm.Cfg) : Sap → List (Peer × Nat × Bytes) → Sap × List Out
   | s, [] => (s, [])
@@ -360,8 +393,9 @@ def appPass {σ} (cfg : DevCfg σ) : DevState σ → List Out → DevState σ ×
     | .indicate peer a =>
       if a.ty = 0 then
         let (app1, r) := cfg.serve s.app peer a
-        let (sap1, o1) := step cfg.tsm (applyDcc s.sap r.dcc) (.response peer (respApdu a r.answer))
-        let (s2, o2) := appPass cfg { s with sap := sap1, app := app1 } os
+        let (sap1, o1) := answerStep cfg.tsm (applyDcc s.sap r.dcc) peer a r.answer
+        let (s2, o2) := appPass cfg { s with sap := sap1, app := app1,
+                                             dccTimer := newDccTimer s.sap.now s.dccTimer r } os
         (s2, o1 ++ o2)
       else if a.ty = 1 then
         let (app1, reqs) := cfg.unconf s.app peer a
@@ -373,6 +407,13 @@ def appPass {σ} (cfg : DevCfg σ) : DevState σ → List Out → DevState σ ×
     | o =>
       let (s2, o2) := appPass cfg s os
       (s2, o :: o2)
+
+/-- the application answers LATER (from a task of its own) the request `req` it was handed
+    earlier: `self.response(...)` → `ServerSSM.confirmation` if the transaction still waits -/
+def respond {σ} (cfg : DevCfg σ) (s : DevState σ) (peer : Peer) (req : Apdu) (ans : AppAnswer) :
+    DevState σ × List Frame :=
+  let (sap1, outs) := step cfg.tsm s.sap (.response peer (respApdu req ans))
+  ({ s with sap := sap1 }, emitAll s.net s.routes outs)
 
 /-- one decoded APDU from `peer` through SMAP, ASAP and the application -/
 def deliver {σ} (cfg : DevCfg σ) (s : DevState σ) (peer : Peer) (a : Apdu) : DevState σ × List Out :=
@@ -528,16 +569,17 @@ def advanceLoop {σ} (cfg : DevCfg σ) (t : Nat) : Nat → DevState σ → DevSt
 def advance {σ} (cfg : DevCfg σ) (s : DevState σ) (dt : Nat) : DevState σ × List Frame :=
   let t := s.sap.now + dt
   let (s', outs) := advanceLoop cfg t (budget cfg.base.retries s.sap.servers) s
-  ({ s' with sap := { s'.sap with now := max s'.sap.now t } }, emitAll s'.net s'.routes outs)
+  (dccExpire t { s' with sap := { s'.sap with now := max s'.sap.now t } }, emitAll s'.net s'.routes outs)
 
 /-- `core.run` until no transaction task is scheduled.  The loop is cut after
     `budget` firings; `C10.quiesce_complete` shows that no timer is armed then. -/
 def quiesce {σ} (cfg : DevCfg σ) (s : DevState σ) : DevState σ × List Frame :=
   let (s', outs) := quiesceLoop cfg (budget cfg.base.retries s.sap.servers) s
   -- the Network-Number-Is answer task (10 000 s) runs after every transaction timer
+  -- … and so does the DeviceCommunicationControl re-enable task, if one is scheduled
   if s'.nniPending then
-    ({ s' with nniPending := false }, emitAll s'.net s'.routes outs ++ nniFrame s'.net s'.netCfg)
-  else (s', emitAll s'.net s'.routes outs)
+    (dccFire { s' with nniPending := false }, emitAll s'.net s'.routes outs ++ nniFrame s'.net s'.netCfg)
+  else (dccFire s', emitAll s'.net s'.routes outs)
 
 /-! ## the property's reading of octets (independent of the codecs above;
     mirrors harness/c10_impl.classify and harness/e2e.decode_apdu_header) -/
